@@ -30,6 +30,7 @@ ASSUMPTIONS = [
 ]
 
 NAMES = ['a', 'b', 'c', 'd']
+WNAMES = NAMES + ['clk', 'itf_a']     # wires of sub-blocks may carry the name of the system clock wire / of an interface signal
 
 
 class Wrap(Logic):
@@ -80,6 +81,8 @@ def run_history(case):
     m_wires = {0: {'clk': sysm._wires['clk']}}     # parent idx -> name -> Wire (live registrations)
     wires = []                       # created wires (live ones carry 'alive')
     w_info = []                      # dict(parent=idx, name, alive, driver)
+    itfs = {}                        # parent idx -> Interface
+    itf_sigs = {}                    # parent idx -> {(signal name, is source-to-sink)}
     conflicts = 0
     accepted_blocks = 0
     tags = set()
@@ -109,7 +112,7 @@ def run_history(case):
         why = ''
         try:
             if kind == 'wire':
-                pi, name, width = op[1] % len(parents), NAMES[op[2] % len(NAMES)], 1 + op[3] % 8
+                pi, name, width = op[1] % len(parents), WNAMES[op[2] % len(WNAMES)], 1 + op[3] % 8
                 expect_raise = name in parents[pi]._wires
                 why = 'duplicate wire name'
                 w = None
@@ -120,6 +123,39 @@ def run_history(case):
                         wires.append(w)
                         w_info.append({'parent': pi, 'name': name, 'alive': True, 'driver': None})
                         m_wires[pi][name] = w
+            elif kind == 'itf_add':
+                # a signal added to an Interface object of the parent: creates the wire <itf>_<signal> in that parent
+                from py4hw.base import Interface
+                pi, sname, width = op[1] % len(parents), NAMES[op[2] % len(NAMES)], 1 + op[4] % 8
+                itf = itfs.get(pi)
+                if itf is None:
+                    itf = itfs[pi] = Interface(parents[pi], 'itf')
+                wname = 'itf_' + sname
+                expect_raise = wname in parents[pi]._wires
+                why = 'duplicate wire name'
+                w = None
+                try:
+                    w = itf.addSourceToSink(sname, width) if op[3] % 2 else itf.addSinkToSource(sname, width)
+                finally:
+                    if w is not None and not expect_raise:
+                        wires.append(w)
+                        w_info.append({'parent': pi, 'name': wname, 'alive': True, 'driver': None})
+                        m_wires[pi][wname] = w
+                        itf_sigs.setdefault(pi, set()).add((sname, op[3] % 2))
+                tags.add('interface_signal')
+            elif kind == 'itf_remove':
+                # the signal leaves the interface; its wire stays in the netlist (and keeps its name)
+                pi = op[1] % len(parents)
+                cands = sorted(itf_sigs.get(pi, ()))
+                if not cands:
+                    continue
+                sname, s2s = cands[op[2] % len(cands)]
+                if s2s:
+                    itfs[pi].removeSourceToSink(sname)
+                else:
+                    itfs[pi].removeSinkToSource(sname)
+                itf_sigs[pi].discard((sname, s2s))
+                tags.add('interface_signal_removed')
             elif kind == 'child':
                 pi, name = op[1] % len(parents), 'k' + NAMES[op[2] % len(NAMES)]
                 expect_raise = name in parents[pi].children
@@ -385,6 +421,8 @@ def _op():
         st.tuples(st.just('dupout'), i, i).map(list),
         st.tuples(st.just('derived'), i, i, i, i, i).map(list),
         st.tuples(st.just('check')).map(list),
+        st.tuples(st.just('itf_add'), i, i, i, i).map(list),
+        st.tuples(st.just('itf_remove'), i, i).map(list),
         st.tuples(st.just('remove'), i).map(list),
     )
 
